@@ -89,9 +89,6 @@ func (mc *c02Machine) step(rt *rapid.T, label string, feed gonnx.Tensors) {
 		copies[k] = cloneT(t)
 	}
 	rr := runModel(mc.m, feed)
-	if rr.panicked {
-		fail("Run panics: %v", rr.panicVal)
-	}
 	// (a) caller tensors untouched
 	for _, k := range sortedKeys(feed) {
 		if feed[k] == nil {
@@ -119,8 +116,15 @@ func (mc *c02Machine) step(rt *rapid.T, label string, feed gonnx.Tensors) {
 		fail("the model bytes no longer load: %v %v", fl.err, fl.panicVal)
 	}
 	fr := runModel(fl.m, copies)
-	if fr.panicked {
-		fail("a freshly loaded model panics on these inputs: %v", fr.panicVal)
+	// a Run that panics (operands of an input without declared shape that no operator can make
+	// sense of) is a failed Run as far as this statement goes: what matters is that the used and
+	// the fresh model agree, and that nothing was modified
+	if rr.panicked != fr.panicked {
+		fail("used model: %v; freshly loaded model on the same inputs: %v", rr, fr)
+	}
+	if rr.panicked {
+		rr.err, fr.err = fmt.Errorf("panic: %v", rr.panicVal), fmt.Errorf("panic: %v", fr.panicVal)
+		mc.flags["panicking-call"] = true
 	}
 	if (rr.err == nil) != (fr.err == nil) {
 		fail("used model: %v; freshly loaded model on the same inputs: %v", rr, fr)
